@@ -39,11 +39,19 @@ def plan(tier, seed):
                 dd = 0
             units.append((name, ch, tmode, dd, tier))
     units.sort(key=lambda u: -u[3])
+    # synthetic-diagram harness for the end-node logic (bbmc/ctldag.py)
+    dd = [(4, 6, 1), (5, 6, 16)] if tier == "quick" else [(4, 6, 1), (5, 10, 32), (6, 7, 64)]
+    for (k, me, nsh) in dd:
+        for sh in range(nsh):
+            units.append(("dag", [(k, me, sh, nsh)], None, 0, tier))
     return {
-        "units": units, "universes": {n: len(s) for n, s, _, _ in us},
+        "units": units, "universes": {**{n: len(s) for n, s, _, _ in us}, "synthetic diagrams (nodes, max edges, shards)": len(dd)},
         "bounds": {"targets": "every non-empty subspace for n <= 3; node spaces and literals for kernel networks",
                    "grid": "strategy {internal, all} x max_drivers {None,1,2} x forbidden {{}, each single variable} x "
                            "skip_feedforward_successions {False, True}",
+                   "synthetic diagrams": "every DAG shape with (nodes, max edges) in " + str([(a, b) for a, b, _ in dd]) + " x every assignment of node "
+                                         "ids (root = 0) x every non-empty target over the synthetic variables x {all expanded, one leaf a stub}: "
+                                         "successions_to_target(expand_diagram=False) on a real SuccessionDiagram object carrying that DAG",
                    "prior diagram states": {n: f"fresh + every state reachable by <= {d} call(s) of the full alphabet" for n, _, _, d in us}},
         "rule": "every intervention reported successful: cumulative trap spaces nested and consistent, every override's reference LDOI "
                 "contains the step's motif, every attractor of the overridden network reachable from the previous trap space has the "
@@ -126,9 +134,34 @@ def check_state(net, spec, prefix, tmode, res, tier):
     return vio
 
 
+def run_dag_unit(spec, res):
+    from ..ctldag import check_shape
+    from ..dagdepth import dags
+    k, me, sh, nsh = spec
+    vio = []
+    for idx, es in enumerate(dags(k, me)):
+        if idx % nsh != sh:
+            continue
+        v = check_shape(k, es, res)
+        res["states"] += 1
+        if len(es) >= k:
+            res["nontrivial"].add(("dag", es))
+        if v:
+            vio.append(V("succession-ends-in-node-with-hot-descendant", {"dag": {"k": k, "edges": [list(e) for e in es]}}, v, site="dag"))
+            break
+    return vio
+
+
 def run_unit(unit):
     uname, specs, tmode, depth, tier = unit
     res = new_result()
+    if uname == "dag":
+        for spec in specs:
+            res["violations"] += run_dag_unit(spec, res)
+        res["transitions"] = res["evals"]
+        res["traces"] = res["evals"]
+        res["samples"].append({"kind": "synthetic diagram family", "spec": list(specs[0])})
+        return res
     for spec in specs:
         net = U.resolve(spec)
         res["states"] += net.N
@@ -167,6 +200,10 @@ def _t(o):
 
 def replay(case):
     from biobalm.control import succession_control
+    if "dag" in case:
+        from ..ctldag import check_shape
+        v = check_shape(case["dag"]["k"], tuple(tuple(e) for e in case["dag"]["edges"]), new_result())
+        return [V("succession-ends-in-node-with-hot-descendant", case, v, site="dag")] if v else []
     net = U.resolve(case["net"])
     prefix = tuple(_t(o) for o in case["prefix"])
     target = dict(map(tuple, case["target"]))
